@@ -55,7 +55,9 @@ def _case(draw):
             'bcast': draw(st.sampled_from([False] * 6 + [True])),
             # before the judged transaction the application issues a request it filled in wrongly (cannot be encoded):
             # whatever that call does (raise, error object), the client must be ready for the next call
-            'pre_bad': draw(st.sampled_from([None] * 7 + ['value-too-large', 'too-many-registers']))}
+            'pre_bad': draw(st.sampled_from([None] * 7 + ['value-too-large', 'too-many-registers'])),
+            # calls made before the judged one that the peer does not answer at all: each of them is bounded like any other call
+            'earlier_failures': draw(st.sampled_from([0, 0, 0, 0, 1, 2, 3]))}
 
 
 def strategy(tier):
@@ -101,6 +103,9 @@ class FaultPeer(transports.Peer):
         return items
 
     def _on_write(self, conn, data):
+        if getattr(self, 'mute', False):
+            self.muted = getattr(self, 'muted', 0) + 1
+            return []
         self.seq += 1
         try:
             p = refframe.parse_one(self.framing, data)
@@ -214,6 +219,27 @@ def run_case(case):
             peer.written[:] = []
         if case.get('serial'):
             labels.append('serial-opts:' + ','.join('%s=%s' % kv for kv in sorted(case['serial'].items())))
+        bound = (2 + case['retries']) * (3 * 1.0 + 1.0) + case['backoff'] * (2 ** (case['retries'] + 2))
+        for k_ in range(case.get('earlier_failures') or 0):
+            peer.mute, peer.muted = True, 0
+            t1 = w.clock.t
+            try:
+                client.execute(kinds.build('req:3', {'address': k_, 'quantity': 1}, unit=case['unit']))
+            except transports.StepBudgetExceeded as e:
+                discs.append(Disc('no-termination', '%s: unanswered call %d: %s' % (ckind, k_ + 1, e)))
+            except Exception as e:
+                discs.append(Disc('raises', '%s: unanswered call %d raised %s: %s' % (ckind, k_ + 1, type(e).__name__, e)))
+            if not discs and w.clock.t - t1 > bound:
+                discs.append(Disc('too-slow', '%s settings %r: the %d. unanswered call in a row took %.2fs of virtual time (bound %.2fs; the first took less)' % (
+                    ckind, _settings(case), k_ + 1, w.clock.t - t1, bound)))
+            if not discs and peer.muted > 1 + case['retries']:
+                discs.append(Disc('too-many-transmissions', '%s settings %r: unanswered call %d was transmitted %d times' % (ckind, _settings(case), k_ + 1, peer.muted)))
+            peer.mute = False
+            peer.written[:] = []
+            w.clock.sleep(2.0)
+            if discs:
+                break
+            labels.append('after-unanswered-calls')
         t0 = w.clock.t
         req = kinds.build(case['kind'], case['fields'], unit=0 if case.get('bcast') else case['unit'])
         result = None
